@@ -19,7 +19,7 @@ RULE = ('(1) primitives: every string over a 14-letter hostile alphabet up to le
         'register again, optionally read some values, save -- the saved lines and the values read are compared with the model (loader cache + registration scan) and '
         'between generations (a session that sets nothing must save what it loaded); one history runs on the real supybot.conf tree with one process per session. '
         '(8) reload in the running bot: histories with set / read / reset (the Config plugin reset commands, re-stated) / save / reload (open_registry without clear) '
-        'inside a session and across restarts, on the real conf.registerChannelValue; saved lines and values read are compared with the timestamp model; directly: a value '
+        'and the API route (node._setValue(parent.value, inherited=True), with the parent changing afterwards) inside a session and across restarts, on the real conf.registerChannelValue; saved lines and values read are compared with the timestamp model; directly: a value '
         'that was reset is not written again unless it is set again or a file that still has it is re-read. '
         '(7) NormalizedString: long values (words with #, hyphens, long URLs, escapes; a #token at every position of a 24-word sentence for three name lengths) '
         'saved by the real close(), the wrapped physical lines / reader result / reloaded value compared with the model and the reload checked directly. '
@@ -749,7 +749,11 @@ def real_generation(inp, g, prev_file, out_file):
                 base = nodes[o[1]]
                 a = o[2]
                 q = inp['vars'][o[1]]['cls']
-                if o[0] == 'reset':
+                if o[0] == 'inherit':
+                    # the registry API, as plugins and scripts use it: the node takes its parent's value again
+                    node_ = base.get(a[1]) if a[0] == 'c' else base.get(':' + a[1])
+                    node_._setValue(base.value, inherited=True)
+                elif o[0] == 'reset':
                     # plugins/Config/plugin.py: reset channel [network] / reset network (shape pinned by t15.config_reset_forgets)
                     # the harness follows the source: each of the three reset statements forgets the cached text iff the source does
                     sites = reset_sites()
@@ -1103,7 +1107,7 @@ CORPUS_NORM = [('someLongName', 'please join #channel and then #other and then #
 
 
 # ---------------------------------------------------------------- (8) reload in a running bot, reset, timestamps
-TOPS = {'set': 0, 'read': 1, 'reset': 2, 'save': 3, 'reload': 4, 'forget': 5}
+TOPS = {'set': 0, 'read': 1, 'reset': 2, 'save': 3, 'reload': 4, 'forget': 5, 'inherit': 6}
 
 
 _SITES = []
@@ -1158,6 +1162,8 @@ def run_tgens(ctx, inp, mo):
             break
         prev = fn
         si = 0
+        for k in state:
+            state[k] = 'saved'          # a new process: the cache was rebuilt from the file, which no longer has the line
         ops = inp['gens'][g] + [['save']]
         for o in ops:
             if o[0] == 'set':
@@ -1166,8 +1172,11 @@ def run_tgens(ctx, inp, mo):
                 state[(o[1], tuple(o[2]))] = 'unsaved'
                 if o[2][0] == 'nc':
                     state[(o[1], ('c', o[2][2]))] = 'unsaved'
+            elif o[0] == 'inherit':
+                # through the API the cached text is not forgotten: the node must follow its parent until the file is re-read
+                state[(o[1], tuple(o[2]))] = 'api'
             elif o[0] == 'reload':
-                for k in [k for k, v in state.items() if v == 'unsaved']:
+                for k in [k for k, v in state.items() if v in ('unsaved', 'api')]:
                     del state[k]
             elif o[0] == 'save':
                 lines = res[3][si]
@@ -1178,7 +1187,8 @@ def run_tgens(ctx, inp, mo):
                         fails.append('generation %d: %r of variable %d was reset (%s) but its line is written again: %r'
                                      % (g, a, i, st, [l for l in lines if l.lower().startswith(addr_name(inp, i, list(a)).lower() + ': ')]))
                 for k in state:
-                    state[k] = 'saved'
+                    if state[k] == 'unsaved':
+                        state[k] = 'saved'
     if mo is not None:
         mm = []
         for x in mo:
@@ -1237,8 +1247,14 @@ def gtgen(rng, allow_stale=False):
             if t < 0.2:
                 if allow_stale or not reset_saved:
                     ops.append(['reload'])
-            elif t < 0.45:
+            elif t < 0.35:
                 ops.append(['reset', i, a])
+            elif t < 0.45:
+                if a[0] in ('c', 'n'):
+                    ops.append(['inherit', i, a])
+                    if rng.random() < 0.6:
+                        ops.append(['set', i, ['g'], rng.choice(GTEXTS[vars_[i]['cls']][:2])])
+                        ops.append(['read', i, a])
             elif t < 0.6:
                 ops.append(['save'])
                 reset_saved = reset_saved or any(o[0] == 'reset' for o in ops)
@@ -1259,6 +1275,18 @@ def gtgen(rng, allow_stale=False):
 
 
 CORPUS_TGENS = [
+    # /tmp/mut/C15_7/demo.py: reload; the API reset (no cache pop); the general value changes (propagation); read; save
+    {'op': 'tgens', 'vars': [{'ns': ['reply', 'mores', 'maximum'], 'flavor': 'channel', 'cls': 'registry.PositiveInteger'}],
+     'gens': [[['set', 0, ['g'], '20'], ['set', 0, ['c', '#chan'], '33']],
+              [['reload'], ['inherit', 0, ['c', '#chan']], ['set', 0, ['g'], '7'], ['read', 0, ['c', '#chan']], ['read', 0, ['g']]],
+              [['read', 0, ['c', '#chan']]]]},
+    {'op': 'tgens', 'vars': [{'ns': ['reply', 'inPrivate'], 'flavor': 'channel', 'cls': 'registry.Boolean'}],
+     'gens': [[['set', 0, ['g'], 'False'], ['set', 0, ['n', 'neta'], 'True']],
+              [['reload'], ['inherit', 0, ['n', 'neta']], ['read', 0, ['n', 'neta']], ['save']]]},
+    # propagation alone: an unset child gets the parent's new value after a reload and keeps following it
+    {'op': 'tgens', 'vars': [{'ns': ['quotes'], 'flavor': 'channel', 'cls': 'registry.String'}],
+     'gens': [[['set', 0, ['g'], 'a'], ['read', 0, ['c', '#chan']]],
+              [['read', 0, ['c', '#chan']], ['reload'], ['set', 0, ['g'], 'b'], ['read', 0, ['c', '#chan']], ['read', 0, ['g']]]]},
     # the seeded C15_7 shape: the file has a channel value; reload in the running bot; reset before anything reads it; read; save
     {'op': 'tgens', 'vars': [{'ns': ['reply', 'mores', 'maximum'], 'flavor': 'channel', 'cls': 'registry.PositiveInteger'}],
      'gens': [[['set', 0, ['g'], '20'], ['set', 0, ['c', '#chan'], '33']],
